@@ -710,7 +710,7 @@ def _run_grid(case, ctx):
         _report_child_exception(out, ctx, "emissivities_from_function")
         return
     ctx.close(np.array(out["ok"]), c, "emissivity:constant-not-exact:grid",
-              "VoxelCollection.emissivities_from_function of a constant is not the constant", rtol=max(N, 2) * EPS,
+              "VoxelCollection.emissivities_from_function of a constant is not the constant", rtol=(2 * N + 4) * EPS,
               monitor="emis_const", const=c, N=N)
 
 
@@ -816,7 +816,7 @@ def _run_emis(case, ctx):
     if ft.startswith("const"):
         ctx.nontrivial()
         ctx.close(m, a, "emissivity:constant-not-exact:%s" % ft, "sampled emissivity of a constant is not the constant",
-                  rtol=max(Neff, 2) * EPS, monitor="emis_const", **det)
+                  rtol=(2 * Neff + 4) * EPS, monitor="emis_const", **det)
         return
     # -- range of f on the polygon ------------------------------------------------------------------
     if ft == "bounded_native":
